@@ -66,19 +66,22 @@ def optimisation_sensitive_sites():
     return sites
 
 
-def rerun_optimised(prop, tier, seed):
-    """The same check in a child interpreter started with -O (asserts
-    stripped, __debug__ false): process environment, like the time zone.
-    Returns (violations, summary line)."""
+def rerun_optimised(prop, tier, seed, flags=('-O',), subset=False):
+    """The same check (or, with subset, the tasks the module names in
+    env_tasks()) in a child interpreter started with other flags (-O: asserts
+    stripped; -bb: str() of bytes is an error): process environment, like the
+    time zone.  Returns (violations, summary line, exit status)."""
     import tempfile
     fd, out = tempfile.mkstemp(prefix='opt-', suffix='.json',
                                dir=os.path.join(VERIF, '.cache'))
     os.close(fd)
     env = dict(os.environ, MC_OPT_CHILD=out, VERIF_SEED=str(seed))
+    if subset:
+        env['MC_ENV_SUBSET'] = '1'
     try:
-        res = subprocess.run([sys.executable, '-O', '-m', 'mc.cli', prop,
-                              '--tier', tier, '--no-evidence'], env=env,
-                             capture_output=True, text=True, timeout=7200)
+        res = subprocess.run([sys.executable] + list(flags) + [
+            '-m', 'mc.cli', prop, '--tier', tier, '--no-evidence'], env=env,
+            capture_output=True, text=True, timeout=7200)
         try:
             with open(out) as fh:
                 viol = json.load(fh)
@@ -123,6 +126,12 @@ def main(argv=None):
                                      sys.argv[1:])
                 return res.returncode
             case = case['case']
+        if isinstance(case, dict) and case.get('python_bb'):
+            if sys.flags.bytes_warning < 2:
+                res = subprocess.run([sys.executable, '-bb', '-m', 'mc.cli'] +
+                                     sys.argv[1:])
+                return res.returncode
+            case = case['case']
         ctx = runner.Ctx(prop, args.tier, seed)
         mod.replay(case, ctx)
         if ctx.violations:
@@ -139,6 +148,8 @@ def main(argv=None):
     from mc import corpus
     corpus.set_tier(args.tier)
     tasks = mod.tasks(args.tier, seed)
+    if os.environ.get('MC_ENV_SUBSET') and hasattr(mod, 'env_tasks'):
+        tasks = mod.env_tasks(args.tier, seed)
     # engine self-test: the first task must replay identically
     selftest = None
     if tasks and getattr(mod, 'SELFTEST', True):
@@ -195,6 +206,22 @@ def main(argv=None):
         else:
             extras['python_O_rerun'] = ('not needed: no assert statement '
                                         'and no __debug__ in pamqp/*.py')
+        if hasattr(mod, 'env_tasks'):
+            # interpreter started with -bb (str() of a bytes object raises
+            # BytesWarning): the tasks that reach error paths and logging
+            viol, last, rc = rerun_optimised(prop, args.tier, seed,
+                                             flags=('-bb',), subset=True)
+            extras['python_bb_rerun'] = last[:300]
+            if viol is None or rc == 2:
+                merged.errors.append('the rerun under python -bb failed: ' +
+                                     last[:300])
+            for v in viol or []:
+                v['fingerprint'] = 'python -bb|' + str(v['fingerprint'])
+                v['message'] = ('[interpreter started with -bb: str() of '
+                                'bytes is an error] ' + str(v['message']))
+                v['case'] = {'python_bb': True, 'case': v.get('case')}
+                merged.violations.append(v)
+                merged.nviolations += 1
     wall = time.time() - t0
 
     if merged.errors:
